@@ -122,7 +122,9 @@ func (s *sim) onCrashed(n *node, log []obs) {
 	} else {
 		killImg, _ = os.ReadFile(n.walFile())
 	}
-	synced := int64(0)
+	// no WAL object yet (the node died during a restart, before it reopened its WAL): the file is the
+	// previous crash image, all of it durable
+	synced := int64(len(killImg))
 	if n.wal != nil {
 		synced = n.wal.syncedLen
 	}
